@@ -134,13 +134,34 @@ def analyse(f: FuncInfo, arr_m: set[str], map_m: set[str], res: RuleResult) -> i
         return out
 
     t = Taint(cfg, expr_taint, iter_taint)
+    # helpers nested in the function that mutate one of their parameters in place: a call that
+    # passes a tainted value in that position is a sink too
+    nested_mut: dict[str, set[int]] = {}
+    for h in ast.walk(f.node):
+        if isinstance(h, ast.FunctionDef) and h is not f.node:
+            hp = [p_.arg for p_ in h.args.posonlyargs + h.args.args]
+            idx = {hp.index(c.func.value.id) for c in ast.walk(h)
+                   if isinstance(c, ast.Call) and isinstance(c.func, ast.Attribute)
+                   and c.func.attr in MUTATORS and isinstance(c.func.value, ast.Name)
+                   and c.func.value.id in hp}
+            if idx:
+                nested_mut[h.name] = idx
     for n in cfg.nodes:
         st = t.at(n)
         for x in n.walk():
             tainted: set[str] = set()
             what = ''
             node: ast.AST = x
-            if isinstance(x, ast.Call) and isinstance(x.func, ast.Attribute) \
+            if isinstance(x, ast.Call) and isinstance(x.func, ast.Name) \
+                    and x.func.id in nested_mut:
+                for i_ in nested_mut[x.func.id]:
+                    if i_ < len(x.args):
+                        k = t.value_taint(x.args[i_], st, n) & {'alias', 'owned'}
+                        if k:
+                            tainted |= k
+                            what = (f'{x.func.id}({stmt_text(x.args[i_])[:30]}, ..), which mutates '
+                                    f'that parameter in place')
+            elif isinstance(x, ast.Call) and isinstance(x.func, ast.Attribute) \
                     and x.func.attr in MUTATORS:
                 tainted = t.value_taint(x.func.value, st, n) & {'alias', 'owned'}
                 what = f'{stmt_text(x.func.value)}.{x.func.attr}()'
